@@ -27,7 +27,7 @@ FUNCTIONS = ["Input.send", "Input._send", "Input._send.find_key", "Input._wait_f
 BOUNDS = ("histories of up to 3 steps (quick; thorough 4) over 19 step kinds, followed by a drain (requests with timeout 0 until "
           "None); chunks: ASCII key, 2- / 3- / 4-byte characters, escape sequences (whole, and split over two arrivals), two keys "
           "at once, a burst of 1030 bytes of 2-byte characters (odd alignment against READ_SIZE) and a burst of escape "
-          "sequences; paste_threshold in {default 8, 1, None}; sigint_event on/off; bytes naming (so that byte conservation "
+          "sequences; paste_threshold in {default, 1, 0, None}; sigint_event on/off; bytes naming (so that byte conservation "
           "is observable)")
 STUBS = ["OS model (select / os.read / pipes / clock / signal bound into curtsies.input and curtsies.termhelpers only); on a "
          "timeout the model clock moves 1 ms past the deadline (a real clock never reads exactly the deadline)",
@@ -61,7 +61,7 @@ def instances(tier, seed):
     out = []
     T = 300 if tier == "quick" else 1200
     L = 3 if tier == "quick" else 4
-    for thr in ("default", 1, None):
+    for thr in ("default", 1, None, 0):
         for sig in (False, True):
             if tier == "quick" and sig and thr != "default":
                 continue
@@ -288,6 +288,9 @@ def run_history(steps, thr, sig):
                 elif kind == "send":
                     t0 = m.clock
                     was = deliverable()
+                    # a burst larger than the threshold that this request will read in one go must come back as ONE paste event
+                    expect_paste = (inp.paste_threshold is not None and not inp.unprocessed_bytes and not hard_deliverable()
+                                    and min(len(m.tty_in), ci.READ_SIZE) > inp.paste_threshold)
                     try:
                         r = inp.send(arg)
                     except KeyboardInterrupt:
@@ -304,6 +307,8 @@ def run_history(steps, thr, sig):
                         raise
                     finally:
                         finish_threads()
+                    if expect_paste and not isinstance(r, events.PasteEvent):
+                        problems.append("a burst larger than paste_threshold=%r was read in one go but came back as %r, not as a paste event" % (inp.paste_threshold, r))
                     note(r, t0, arg, was)
             # drain: everything still pending must come out, nothing twice
             finish_threads()
